@@ -57,7 +57,7 @@ _replay = mk_replay("C10", CHECKS, check_entry="c10_check_entry", model=False)
 
 def replay(path):
     import json
-    if json.load(open(path)).get("case", {}).get("family") == "causalrm":
+    if json.load(open(path)).get("case", {}).get("family") in ("causalrm", "causalrm2"):
         import props.c11 as c11
         return c11.replay(path)
     return _replay(path)
